@@ -10,42 +10,42 @@ import (
 
 func init() {
 	register(&Rule{
-		Name: "hpack-static-table", Props: []string{"C03", "C04"}, Engine: "CODEC", Floor: 63,
+		Name: "hpack-static-table", Props: []string{"C03", "C04", "C01", "C02"}, Engine: "CODEC", Floor: 63,
 		Doc: "the staticTable literal has the 61 entries of RFC 7541 Appendix A in order, maxIndex is 62, and a table entry is sized name+value+32 (RFC 7541 s4.1)",
 		Run: ruleStaticTable,
 	})
 	register(&Rule{
-		Name: "dec-dispatch-table", Props: []string{"C03", "C16"}, Engine: "CODEC", Floor: 256,
+		Name: "dec-dispatch-table", Props: []string{"C03", "C16", "C01", "C02"}, Engine: "CODEC", Floor: 256,
 		Doc: "for every first octet 0x00..0xff, the first matching representation clause of the field decoder is the representation RFC 7541 s6 assigns to that octet: same integer prefix width, never-indexed marking only for 0001xxxx, dynamic-table insertion only for 01xxxxxx, size update only for 001xxxxx",
 		Run: ruleDecDispatch,
 	})
 	register(&Rule{
-		Name: "dec-cursor-grammar", Props: []string{"C03", "C16"}, Engine: "PATH", Floor: 4,
+		Name: "dec-cursor-grammar", Props: []string{"C03", "C16", "C01", "C02"}, Engine: "PATH", Floor: 4,
 		Doc: "on every path through a representation clause the input cursor advances exactly as the RFC 7541 s6 grammar of that representation: indexed = int(7); literal = int(N) string | skip(1) string string; size update = int(5). A cursor advance conditioned on the content of the next octet is content-dependent framing",
 		Run: ruleDecCursor,
 	})
 	register(&Rule{
-		Name: "dec-int-overflow", Props: []string{"C03", "C16"}, Engine: "CODEC", Floor: 2,
+		Name: "dec-int-overflow", Props: []string{"C03", "C16", "C01", "C02"}, Engine: "CODEC", Floor: 4,
 		Doc: "the prefix-integer decoder's overflow guard admits no continuation shift at which a 7-bit group no longer fits in 64 bits, and the single-octet case is exactly value < 2^N-1 (RFC 7541 s5.1)",
 		Run: ruleDecIntOverflow,
 	})
 	register(&Rule{
-		Name: "dec-size-update-guard", Props: []string{"C03"}, Engine: "DOM", Floor: 3,
+		Name: "dec-size-update-guard", Props: []string{"C03", "C01", "C02"}, Engine: "DOM", Floor: 3,
 		Doc: "a dynamic table size update is applied only after rejecting (a) an update that is not at the start of a header block and (b) a size above the limit taken from SETTINGS; the new size is then enforced by evicting (RFC 7541 s4.2, s6.3)",
 		Run: ruleDecSizeUpdate,
 	})
 	register(&Rule{
-		Name: "hpack-table-index", Props: []string{"C03", "C04"}, Engine: "LIN", Floor: 4,
+		Name: "hpack-table-index", Props: []string{"C03", "C04", "C01", "C02"}, Engine: "LIN", Floor: 4,
 		Doc: "dynamic table addressing: the decoder maps wire index n>=62 to dynamic[len-(n-62)-1] with a bounds check and static index n to staticTable[n-1]; the encoder's search returns 62+len-i-1 for dynamic[i] and i+1 for staticTable[i]; eviction removes from the oldest end while size > max (RFC 7541 s2.3.3, s4.4)",
 		Run: ruleTableIndex,
 	})
 	register(&Rule{
-		Name: "enc-paths", Props: []string{"C04"}, Engine: "PATH", Floor: 6,
+		Name: "enc-paths", Props: []string{"C04", "C01", "C02"}, Engine: "PATH", Floor: 6,
 		Doc: "on every path of the field encoder: the representation octet and the prefix width handed to the integer encoder are a pair of RFC 7541 s6 (0x80/7, 0x40/6, 0x00/4, 0x10/4, 0x20/5); the encoder inserts into its table iff it emitted 0x40; a sensitive field is emitted as 0x10 and never inserted; an indexed field carries no value string and every literal carries exactly one",
 		Run: ruleEncPaths,
 	})
 	register(&Rule{
-		Name: "enc-int-boundary", Props: []string{"C04"}, Engine: "CODEC", Floor: 1,
+		Name: "enc-int-boundary", Props: []string{"C04", "C01", "C02"}, Engine: "CODEC", Floor: 4,
 		Doc: "the integer encoder emits a single octet exactly when value < 2^N-1, the same boundary at which the decoder stops (RFC 7541 s5.1); at value == 2^N-1 a zero continuation octet is required",
 		Run: ruleEncIntBoundary,
 	})
@@ -599,6 +599,34 @@ func ruleDecIntOverflow(p *Prog, r *Out) {
 		return true
 	})
 	r.check(single, "single-octet boundary", p.pos(fd.Pos()), "prefix != all-ones ends the integer", "readInt no longer ends the integer when the prefix bits are not all ones (RFC 7541 s5.1)")
+	// continuation: 7 payload bits per octet, bit 0x80 continues, result = prefix max + sum
+	acc, stop, sum := false, false, false
+	ast.Inspect(fd.Body, func(n ast.Node) bool {
+		switch x := n.(type) {
+		case *ast.AssignStmt:
+			if x.Tok == token.OR_ASSIGN && len(x.Rhs) == 1 {
+				t := strings.ReplaceAll(p.text(x.Rhs[0]), " ", "")
+				if t == "uint64(b[i]&127)<<shift" {
+					acc = true
+				}
+			}
+		case *ast.IfStmt:
+			t := strings.ReplaceAll(p.text(x.Cond), " ", "")
+			if t == "b[i]&128!=128" || t == "b[i]&128==0" {
+				for _, s := range x.Body.List {
+					if rs, ok := s.(*ast.ReturnStmt); ok && len(rs.Results) == 3 {
+						stop = true
+						if p.linOf(rs.Results[1], nil).eq(Lin{T: map[string]int64{"nn": 1, "b0": 1}}) && p.text(rs.Results[0]) == "b[i+1:]" {
+							sum = true
+						}
+					}
+				}
+			}
+		}
+		return true
+	})
+	r.check(acc, "7 payload bits per continuation octet", p.pos(fd.Pos()), "nn |= (b[i]&127) << shift", "readInt no longer accumulates the low 7 bits of each continuation octet at its shift")
+	r.check(stop && sum, "stop at a clear top bit; value = 2^N-1 + sum; cursor after the last octet", p.pos(fd.Pos()), "b[i]&128 == 0 -> return b[i+1:], nn + b0", "readInt no longer stops at the first octet with a clear top bit returning prefix-maximum + accumulated value and the cursor just past that octet")
 }
 
 // ---------------------------------------------------------------- size update guard
@@ -1190,6 +1218,55 @@ func ruleEncIntBoundary(p *Prog, r *Out) {
 	if !found {
 		r.undecided("single-octet condition", p.pos(fd.Pos()), "no early-return comparison on the value found in appendInt")
 	}
+	// the multi-octet path: subtract the prefix maximum, emit 7-bit groups while
+	// the remainder is >= 128, then ALWAYS emit the last group (also when it is 0)
+	sub, loopOK, groupOK, shiftOK, lastOK, masks := false, false, false, false, false, false
+	for _, s := range fd.Body.List {
+		switch x := s.(type) {
+		case *ast.AssignStmt:
+			if len(x.Lhs) == 1 && p.text(x.Lhs[0]) == "index" {
+				if (x.Tok == token.SUB_ASSIGN && p.ubKey(x.Rhs[0]) == "b0") || (x.Tok == token.ASSIGN && p.linOf(x.Rhs[0], nil).eq(Lin{T: map[string]int64{"index": 1, "b0": -1}})) {
+					sub = true
+				}
+			}
+			if x.Tok == token.AND_ASSIGN {
+				masks = true
+			}
+		case *ast.ForStmt:
+			if x.Cond != nil {
+				if c, ok := p.canonCmp(x.Cond, nil); ok && c.Op == "le" && c.L.eq(Lin{T: map[string]int64{"index": -1}, C: 128}) {
+					loopOK = true
+				}
+			}
+			ast.Inspect(x, func(n ast.Node) bool {
+				switch y := n.(type) {
+				case *ast.CallExpr:
+					if p.calleeOf(y) == "builtin.append" && len(y.Args) == 2 {
+						t := strings.ReplaceAll(p.text(y.Args[1]), " ", "")
+						if t == "128|byte(index&127)" || t == "byte(index&127)|128" || t == "byte(index&127|128)" || t == "byte(index%128+128)" {
+							groupOK = true
+						}
+					}
+				case *ast.AssignStmt:
+					if len(y.Lhs) == 1 && p.text(y.Lhs[0]) == "index" && y.Tok == token.SHR_ASSIGN {
+						if v, ok := p.intConst(y.Rhs[0]); ok && v == 7 {
+							shiftOK = true
+						}
+					}
+				}
+				return true
+			})
+		case *ast.ReturnStmt:
+			if len(x.Results) == 1 {
+				if c, ok := x.Results[0].(*ast.CallExpr); ok && p.calleeOf(c) == "builtin.append" && len(c.Args) == 2 && p.ubKey(c.Args[1]) == "index" {
+					lastOK = true
+				}
+			}
+		}
+	}
+	r.check(sub, "remainder = value - (2^N-1)", p.pos(fd.Pos()), "index -= b0", "appendInt no longer subtracts the prefix maximum before the continuation octets")
+	r.check(loopOK && groupOK && shiftOK, "7-bit groups while remainder >= 128", p.pos(fd.Pos()), "for index >= 128 { append(128|index&127); index >>= 7 }", "appendInt's continuation loop is not `while remainder >= 128: emit 128|(remainder&127); remainder >>= 7` (RFC 7541 s5.1)")
+	r.check(lastOK && !masks, "last group always written", p.pos(fd.Pos()), "return append(dst, byte(index))", "appendInt does not unconditionally end the multi-octet form with the last 7-bit group: for a remainder of 0 (value == 2^N-1) no continuation octet is written (or the prefix octet's top bit is cleared), and the decoder consumes the next octet of the block as part of the integer")
 }
 
 // ---------------------------------------------------------------- output peek
